@@ -52,12 +52,12 @@ Theorem C10_lex_kotlin :
 Proof. exact Proofs.C10.lex_kotlin. Qed.
 Print Assumptions C10_lex_kotlin.
 
-(* Scala: the same outside the finding class C10-scala-package-brace (package name without a dot and something
-   to print) *)
+(* Scala: the same for every admissible package name (made of [A-Za-z0-9_.+-]), with or without a dot: since the
+   /repo fix of C10-scala-package-brace the closing brace of the package object / package block is printed exactly
+   when its opener is, so the statement has no carve-out (the empty package is begin_file's error: no text) *)
 Theorem C10_lex_scala :
   forall (uc : unicode) (cfg : sc_config) (pd : parsed) (text : str),
     Proofs.C10_SC.c10_sc_cfg_ok cfg = true -> dom_C10 CSC pd = true ->
-    Proofs.C10_SC.c10_scala_brace_class (sc_package cfg) pd = false ->
     sc_generate uc cfg pd = Ok text -> good_C10_lex CSC text = true.
 Proof. exact Proofs.C10.lex_scala. Qed.
 Print Assumptions C10_lex_scala.
@@ -151,13 +151,25 @@ Theorem C10_kw_python :
 Proof. exact Proofs.C10_KW.kw_python. Qed.
 Print Assumptions C10_kw_python.
 
-(* ---------------------------------------------------------------- the finding classes are real *)
-Theorem C10_scala_package_brace_refuted :
-  exists cfg pd text, dom_C10 CSC pd = true /\ known_C10 CSC (sc_package cfg) pd = ["C10-scala-package-brace"%string] /\
-    sc_generate uc_exec cfg pd = Ok text /\ good_C10_lex CSC text = false.
-Proof. exact Proofs.C10.scala_package_brace_refuted. Qed.
-Print Assumptions C10_scala_package_brace_refuted.
+(* ---------------------------------------------------------------- regression pin of the repaired class *)
+(* C10-scala-package-brace (fixed in /repo): under the dotless package `onepassword` the former witness
+   `struct A { x: String }` is in no finding class and gives exactly the documented case class at top level - no
+   closing brace after it - which is balanced; a program that fills both the package object (unsigned aliases, an
+   alias) and the package (a struct, an enum) is balanced as well *)
+Theorem C10_scala_package_brace_fixed :
+  Proofs.C10_SC.c10_sc_cfg_ok Proofs.C10.w_brace_cfg = true /\ contains_char sc_ch_dot (sc_package Proofs.C10.w_brace_cfg) = false /\
+  dom_C10 CSC Proofs.C10.w_brace_pd = true /\ c10_has_items Proofs.C10.w_brace_pd = true /\
+  known_C10 CSC (sc_package Proofs.C10.w_brace_cfg) Proofs.C10.w_brace_pd = [] /\
+  sc_generate uc_exec Proofs.C10.w_brace_cfg Proofs.C10.w_brace_pd = Ok Proofs.C10.w_brace_text /\
+  contains_sub (lit "case class A (") Proofs.C10.w_brace_text = true /\ contains_sub (lit "}") Proofs.C10.w_brace_text = false /\
+  good_C10_lex CSC Proofs.C10.w_brace_text = true /\
+  exists text, dom_C10 CSC Proofs.C10.w_prog = true /\ known_C10 CSC (sc_package Proofs.C10.w_brace_cfg) Proofs.C10.w_prog = [] /\
+    sc_generate uc_exec Proofs.C10.w_brace_cfg Proofs.C10.w_prog = Ok text /\ contains_sub (lit "type ULong = Int") text = true /\
+    contains_sub (lit "case class A (") text = true /\ good_C10_lex CSC text = true.
+Proof. exact Proofs.C10.scala_package_brace_fixed. Qed.
+Print Assumptions C10_scala_package_brace_fixed.
 
+(* ---------------------------------------------------------------- the finding classes are real *)
 Theorem C10_scala_default_refuted :
   exists cfg pd text, dom_C10 CSC pd = true /\ known_C10 CSC (sc_package cfg) pd = ["C10-scala-default"%string] /\
     sc_generate uc_exec cfg pd = Ok text /\ contains_sub (lit "x: String = _") text = true.
